@@ -412,7 +412,7 @@ def run(res, tier):
                 "reply carried Location or Content-Location")
     std.run_lab(res, PID, tier, area="purge", gens=["purgemethods", "purgeuri"], gen_scenarios=gen_scenarios, run_impl=run_impl,
                 to_case=to_case, oracle=oracle, corr_name="PurgeModel (refetched) vs the running squid",
-                n_quick=260, n_thorough=5000, seed_salt=20, kind_fn=kind, nontrivial_fn=nontrivial)
+                n_quick=230, n_thorough=5000, seed_salt=20, kind_fn=kind, nontrivial_fn=nontrivial)
     _state.clear()
     res.rule += ("; unit level: 6000 (quick) generated inputs for sameUrlHosts (URL pairs from scheme/separator/authority/path "
                  "pieces with single-character mutations), urlIsRelative, Uri::Encode(PathChars) (random bytes) and the "
